@@ -169,11 +169,40 @@ pub fn ser<T: portus::serialize::AsRawMsg>(m: &T) -> portus::Result<Vec<u8>> {
     full
 }
 
+pub static REPR_DIFF: std::sync::atomic::AtomicBool = std::sync::atomic::AtomicBool::new(false);
+
+/// an equal vector with a lot of spare capacity (a reused scratch list, a truncated list)
+pub fn roomy<T: Clone>(v: &[T]) -> Vec<T> {
+    let mut r = Vec::with_capacity(v.len() * 2 + 700);
+    r.extend_from_slice(v);
+    r
+}
+
+/// `ser` of two EQUAL messages held differently in memory (exact-capacity vs roomy collections): the bytes are a function of the
+/// message's value, so both must give the same outcome
+pub fn ser2<T: portus::serialize::AsRawMsg>(a: &T, b: &T) -> portus::Result<Vec<u8>> {
+    let ra = ser(a);
+    let rb = serialize::serialize(b);
+    let same = match (&ra, &rb) {
+        (Ok(x), Ok(y)) => x == y,
+        (Err(_), Err(_)) => true,
+        _ => false,
+    };
+    if !same {
+        REPR_DIFF.store(true, std::sync::atomic::Ordering::SeqCst);
+    }
+    ra
+}
+
 pub fn enc(args: &[&str]) -> String {
     STREAM_DIFF.store(false, std::sync::atomic::Ordering::SeqCst);
+    REPR_DIFF.store(false, std::sync::atomic::Ordering::SeqCst);
     let r = enc_inner(args);
     if STREAM_DIFF.load(std::sync::atomic::Ordering::SeqCst) {
         return format!("STREAMDIFF {}", r);
+    }
+    if REPR_DIFF.load(std::sync::atomic::Ordering::SeqCst) {
+        return format!("REPRDIFF {}", r);
     }
     r
 }
@@ -196,7 +225,7 @@ fn enc_inner(args: &[&str]) -> String {
             } else {
                 return "BADARG".into();
             };
-            ser(&create::Msg {
+            let mk = |alg: Option<String>| create::Msg {
                 sid: v[0],
                 init_cwnd: v[1],
                 mss: v[2],
@@ -205,7 +234,13 @@ fn enc_inner(args: &[&str]) -> String {
                 dst_ip: v[5],
                 dst_port: v[6],
                 cong_alg: alg,
-            })
+            };
+            let roomy_alg = alg.as_ref().map(|a| {
+                let mut r = String::with_capacity(a.len() * 2 + 300);
+                r.push_str(a);
+                r
+            });
+            ser2(&mk(alg), &mk(roomy_alg))
         }
         Some("MS") if args.len() == 5 => {
             let sid = p32(args[1]);
@@ -217,12 +252,16 @@ fn enc_inner(args: &[&str]) -> String {
                 args[4].split(',').map(|s| s.parse().ok()).collect()
             };
             match (sid, uid, nf, fields) {
-                (Some(sid), Some(uid), Some(nf), Some(fields)) => ser(&measure::Msg {
-                    sid,
-                    program_uid: uid,
-                    num_fields: nf,
-                    fields,
-                }),
+                (Some(sid), Some(uid), Some(nf), Some(fields)) => {
+                    let mk = |fields: Vec<u64>| measure::Msg {
+                        sid,
+                        program_uid: uid,
+                        num_fields: nf,
+                        fields,
+                    };
+                    let r = roomy(&fields);
+                    ser2(&mk(fields), &mk(r))
+                }
                 _ => return "BADARG".into(),
             }
         }
